@@ -12,6 +12,25 @@ CLAIMS = {
  'C02': dict(level=MC, design='5 (C01/C02)', tech='TLA+ spec Mcb.tla (Return action: ret = emitted weight = Opt) + TLC trace validation; oracles OptBrute/OptHorton evaluated by TLC',
    text='Same recorded behaviours as C01; TLC enables Return(r) only if r equals the weight of the emitted cycles, that weight equals the optimum computed in TLA+ (matroid greedy over the whole cycle space for m<=12, Horton candidates + XOR basis beyond) and the sorted weight vector equals the optimum one. The two oracles are proved equal to each other and to an exhaustive search over all bases by TLC on all graphs up to the bound.',
    note=TB + 'exact-arithmetic domain only (C09 covers inexact weights)'),
+
+ 'C12': dict(level=MC, design='5 (C12)', tech='TLA+ spec Components.tla (SptViol) + TLC trace validation of dumped shortest-path trees',
+   text='For every TLC-enumerated graph up to the bound (weights {1,2}: the tie-heavy ones), permuted grids/hypercubes/K_{a,b}/cycles and seeded random unit- and small-weight graphs, the SPTree rooted at every vertex is dumped (distance, predecessor edge, first) and TLC checks against distances it computes itself (Floyd-Warshall in TLA+): node iff reachable, exact distances, predecessor edges are tight edges towards the root, first = child of the root on the path, tree path u->v = reverse of v->u, every suffix of a chosen path is the chosen path of its start vertex.',
+   note=TB + 'the property does not prescribe which shortest path is chosen and neither does the spec; heap tie order cannot be forced in the code'),
+ 'C13': dict(level=MC, design='5 (C13)', tech='TLA+ model Fvs.tla model-checked against Components!FvsViol + TLC trace validation of greedy_fvs outputs',
+   text='Fvs.tla models detail/fvs.hpp step by step (degree bookkeeping, LIFO clean-up with repeated pushes, pop of ANY maximum-degree vertex, stale heap entries); TLC checks for all graphs up to the bound and every pop order that the result is a feedback vertex set and that the degree bookkeeping invariant holds. The real greedy_fvs is run on all TLC-enumerated graphs plus random graphs with pendant trees/extra components and each output is validated by TLC (vertices valid and distinct, G - out acyclic, forest => empty).',
+   note=TB + 'pairing-heap tie order is explored on the model only'),
+ 'C14': dict(level=MC, design='5 (C14)', tech='TLA+ spec Components.tla (CollViol) + TLC trace validation of the three candidate collections',
+   text='The Horton, FVS and ISO builders are run on the exhaustive small space, tie-heavy families and random graphs; the event carries the trees and candidates. TLC checks each candidate (two root paths meeting only in the root + non-tree edge = simple cycle through the root, recorded weight = true weight), FVS and ISO are sub-collections of Horton as (root, edge) pairs, and greedy-by-weight with GF(2) independence over each collection reaches the optimum weight and dimension computed by the TLA+ oracle.',
+   note=TB + 'sufficiency is judged against Opt(g) of CycleSpace.tla'),
+ 'C16': dict(level=MC, design='5 (C16)', tech='TLA+ model ForestIndex.tla model-checked against Components!ForestViol + TLC trace validation of ForestIndex dumps',
+   text='ForestIndex.tla models spanning_forest (BFS from ANY unreached vertex, out-edges in insertion order) and the two-counter numbering; TLC checks for all graphs up to the bound and every root order that the result satisfies the abstract index specification. The real ForestIndex is dumped on all graphs with <= 5 vertices in two insertion orders, random graphs with many components, empty and edgeless graphs, and TLC checks bijection, inverse lookups, component count, dimension, off-forest <=> index < dimension, spanning forest, and copy semantics.',
+   note=TB + 'unordered_set iteration order is explored on the model only'),
+ 'C17': dict(level=MC, design='5 (C17)', tech='TLA+ register machine SpVecGF2.tla; TLC-generated (state,operation) transitions replayed on real objects; TLC trace validation of every step',
+   text='SpVecGF2.tla gives every public operation its GF(2) meaning on dense vectors; SpVecGF2Merge.tla models the two-pointer loops and is model-checked against it for all pairs. TLC enumerates every (register state, operation) transition for R=3, D=3 (73 728) including all aliasing patterns (v += v, r = r + r, self-assignment, moves); each is executed on real SpVecGF2<size_t> objects and the projected state of ALL registers (iteration order, size(), product) is validated by TLC after the step; plus seeded random histories of length 40 over dimensions up to 64.',
+   note=TB + 'moved-from objects are re-initialised by the harness; add() is not in the property'),
+ 'C18': dict(level=MC, design='5 (C18)', tech='TLA+ specs FpArith.tla / ExtGcd.tla (loop model, model-checked) + TLC trace validation of recorded calls and SpVecFP histories',
+   text='ExtGcd.tla models the ext_gcd loop (one action per iteration) and TLC proves the Bezout loop invariant and the postcondition for all pairs in -K..K. Recorded calls: ext_gcd on all pairs of a small range and random pairs, get_mult_inverse for all residues and moduli up to a bound (inverse iff gcd = 1, otherwise any exception), is_prime on a range and random values, for int, long and cpp_int; SpVecFP random histories (unit assignment, +, +=, scalar * with negative and multiple-of-p scalars, dot, copy, clear) are validated step by step against dense arithmetic modulo p evaluated by TLC.',
+   note=TB + 'operands < 2^15 so that TLC evaluates products exactly in 32-bit integers'),
 }
 NA = {
  'C07': 'memory safety / undefined behaviour is not a property of an abstract state machine: a TLA+ specification cannot observe out-of-bounds or uninitialised accesses and the guidance for this technique family names memory safety as out of reach; switching to sanitizers would be a different technique (DESIGN.md section 6). The returned-handle lifetime clause is checked under C05.',
